@@ -58,6 +58,7 @@ def showView (v : Except Panic (List Char) × Except Panic (List Char) × Int) :
   * `empty <hexSrc> <line>`                        → `0|1`                           (`is_empty`)
   * `lineindent <hexSrc> <blkIndent> <line>`       → integer or `PANIC`              (`line_indent`)
   * `getline <hexSrc> <line>`                      → hex or `PANIC`                  (`get_line`)
+  * `getmap <hexSrc> <startLine> <endLine>`        → `<start>/<end>` or `PANIC`      (`get_map`)
 -/
 def handle (args : List String) : String :=
   match args with
@@ -137,6 +138,13 @@ def handle (args : List String) : String :=
       | .ok t => charsToHex t
       | .error _ => "PANIC"
     | _, _ => "bad-args"
+  | ["getmap", hex, sS, eS] =>
+    match hexToChars hex, sS.toNat?, eS.toNat? with
+    | some src, some s, some e =>
+      match getMap (splitLines src) s e with
+      | .ok (a, b) => toString a ++ "/" ++ toString b
+      | .error _ => "PANIC"
+    | _, _, _ => "bad-args"
   | _ => "bad-op"
 
 end Driver.Lines
